@@ -106,7 +106,7 @@ for n, tier, b, cost in [
     ("head_reuse_t1_reset", "thorough", "second call after reset(); T=1", 6),
     ("head_reuse_t0_noreset", "quick", "second call without reset(); T=0", 3),
 ]:
-    H(n, "head.rs", "HEAD(reuse)", ["C08", "C09"], tier,
+    H(n, "head.rs", "HEAD(reuse)", ["C08", "C09", "C06", "C05"], tier,
       "every protocol; fuzzer bytes 0..2; used generator = arbitrary junk output byte + one stack item + arbitrary PROTO flag "
       "(native replay: a real earlier call on 4 arbitrary bytes); deterministic contracts; " + b,
       stubs=ENV_STUBS + HEAD_CONTRACTS, funcs=HEAD_FUNCS, cost=cost)
@@ -182,15 +182,18 @@ for i in _gi.emit_instances():
             st.append("str_replace_char: str::replace on the empty string only")
     H(i["name"], "emit.rs", "EMIT", props, i["tier"], "%s: %s; memo size m <= 70000; rate in [0,1]; flags symbolic" % (o, i["bound"]),
       stubs=st, funcs=["Generator::emit_and_process(%s)" % o, "Generator::{emit_int,emit_string,emit_bytes,emit_global,emit_opcode,mutate_*,create_snapshot,post_process_emission}"],
-      cost=3 if i["tier"] == "quick" else 8, thorough_only_for=["C01", "C09", "C17", "C11"] if o not in ("NONE", "APPEND", "BINBYTES", "PUT") else [])
+      cost=3 if i["tier"] == "quick" else 8,
+      thorough_only_for=([] if o in ("NONE", "APPEND", "BINBYTES", "PUT") else ["C01", "C09", "C17"])
+      + ([] if o in ("NONE", "APPEND", "BINBYTES", "PUT", "BINPUT", "LONG_BINPUT", "SHORT_BINBYTES", "SHORT_BINSTRING", "INST", "GLOBAL", "EXT1") else ["C11"]))
 
 for n, op, b in [("emit_short_binbytes_maxlen_stringlen", "SHORT_BINBYTES", "string-length mutator at symbolic rate"),
                  ("emit_short_binstring_maxlen_stringlen", "SHORT_BINSTRING", "string-length mutator at symbolic rate"),
                  ("emit_binbytes_maxlen_stringlen", "BINBYTES", "string-length mutator at symbolic rate"),
                  ("emit_short_binbytes_maxlen_none", "SHORT_BINBYTES", "no mutators")]:
     H(n, "emit.rs", "EMIT(long)", ["C04", "C11", "C09"], "thorough",
-      "%s with the length byte 255 (largest base payload: 31 symbolic bytes on the unchanged tree; up to 255 would still be executed), %s; "
-      "fuzzer bytes fully symbolic (272/40); prefix must equal payload length, one lexeme, simulation argument = payload" % (op, b),
+      "%s with the length byte 255 (largest base payload: 31 bytes), %s; "
+      "payload content concrete (zeros), the mutator's entropy symbolic (16 bytes after the payload); "
+      "prefix must equal payload length, one lexeme, simulation argument = payload" % (op, b),
       stubs=ENV_STUBS + ["c_pso recorder"], funcs=["Generator::emit_and_process(%s)" % op, "Generator::emit_bytes", "Generator::mutate_bytes",
                                                    "StringLengthMutator::mutate_bytes"], cost=10)
 
